@@ -195,8 +195,8 @@ class FamilyRun:
                     agg[k] += r[k]
                 agg["truncated"] = agg.get("truncated", False) or r.get("truncated", False)
                 if r.get("machine"):
-                    m = agg.setdefault("machine", {"cases": 0, "compared": 0, "skipped": 0, "ndrift": 0, "drift": []})
-                    for k in ("cases", "compared", "skipped", "ndrift"):
+                    m = agg.setdefault("machine", {"cases": 0, "compared": 0, "skipped": 0, "limited": 0, "ndrift": 0, "drift": []})
+                    for k in ("cases", "compared", "skipped", "limited", "ndrift"):
                         m[k] += r["machine"][k]
                     for dr in r["machine"]["drift"][:3]:
                         if len(m["drift"]) < 10:
